@@ -83,7 +83,8 @@ class Schedules(Part):
         rec.new_batch(vectors, pre=pre)
         th = threading.Thread(target=gates.controller, daemon=True)
         th.start()
-        exc = jobrec.evaluate_batch(rec, workers=workers)
+        exc = jobrec.evaluate_batch(rec, workers=workers, on_exception=gates.finish)
+        gates.finish()
         th.join(60)
         if gates.stalled or th.is_alive():
             raise MachineryError("steered schedule stalled: %s" % case["schedule"])
